@@ -3,6 +3,13 @@
 Streams: "filters" (every case: implementation = Lean model, independent oracle) and "known-findings" (the cases of
 the main stream that fall into the input class of an open finding, judged again with the abort class kept).
 
+Case kinds: `vec` (LAFEM filters and their compositions), `gvec` (the same through Global::Filter / Global::Vector),
+`gmean` (Global::MeanFilter with / without communicator and frequency vector), `mat` / `matb` (CSR / BCSR members).
+The first cases of every run are the deterministic *dispatch* cases (gen_dispatch_cases): compositions whose members
+have four pairwise different member functions, built so that calling any other member function on any single member
+changes the result (so a combinator that forwards filter_def to a member's filter_cor etc. cannot pass).
+Slip normals are never normalised (entries of different magnitude, key `S-normals-of-different-magnitude`).
+
 Open finding (KNOWN_FINDINGS.json, signature "c06-edge:F1"): MeanFilterBlocked's constructors test
 `volume.norm_euclid_sqr() > eps` instead of every component, so weights with one vanishing volume component are
 accepted and filter_rhs/sol/def/cor then divide by that component.
@@ -36,7 +43,14 @@ VEC_SIGS = [
     "UB2", "UB3", "S2", "S3", "MB2", "MB3", "NB2", "C(S2,UB2)", "C(UB2,S2)", "C(UB3,MB3)", "C(UB2,MB2,S2)",
     "Q(UB2)", "Q(S3)",
     "T(U)", "T(U,UB2)", "T(M,S2,U)", "T(C(U,M),UB3)", "T(Q(U),S2)",
-    "P1(M)", "P2(U)", "P3(U)", "P2(UB2)", "P2(C(U,M))", "T(P2(U),M)"]
+    "P1(M)", "P2(U)", "P3(U)", "P2(UB2)", "P2(C(U,M))", "T(P2(U),M)",
+    "C(UB2,MB2)", "T(C(U,M),C(U,M),C(U,M))", "C(C(U,M),C(U,M),C(U,M))", "P3(C(U,M))", "T(C(UB2,MB2),C(U,M))",
+    "Q(C(UB2,MB2))", "T(C(U,M))", "P1(C(U,M))"]
+# compositions whose top-level members all have four pairwise different member functions (a unit filter followed by a
+# mean filter with non-parallel weights and a non-zero solution mean): the deterministic dispatch stream
+DISPATCH_SIGS = ["T(C(U,M),C(U,M),C(U,M))", "C(C(U,M),C(U,M),C(U,M))", "Q(C(U,M))", "P2(C(U,M))", "P3(C(U,M))",
+                 "T(C(UB2,MB2),C(U,M))", "Q(C(UB2,MB2))", "T(C(U,M))", "P1(C(U,M))", "C(U,M)", "C(M,U)"]
+GVEC_SIGS = ["U", "M", "C(U,M)", "UB2", "S2", "C(UB2,MB2)"]
 MAT_SIGS = ["U", "M", "N", "C(U,U)", "C(U,M)", "C(N,U)", "C(U,U,U,M)", "Q(U)"]
 MATB_SHAPES = [(2, 2), (2, 3), (3, 2), (2, 1), (3, 3)]
 
@@ -315,6 +329,30 @@ def gen_cases(rng, count, big=False):
     cases = []
     for _ in range(count):
         k = rng.random()
+        if k < 0.05:
+            # Global::Filter wrapper / Global::MeanFilter
+            if rng.random() < 0.5:
+                sig = rng.choice(GVEC_SIGS)
+                o1 = dict(opts)
+                o1["nan_written_ok"] = not ("S" in sig or "M" in sig)
+                f, vs = gen_filter(rng, parse_sig(sig), None, o1)
+                v = gen_vector(rng, vs)
+                cases.append(squeeze("gvec %s %s %s %s" % (rng.choice(MODES), sig, fmt_filter(f), fmt_vector(v))))
+            else:
+                n = rng.choice(opts["sizes"])
+                comm = rng.choice([0, 1, 1])
+                prim = [Fraction(rng.randint(1, 5), rng.randint(1, 3)) for _ in range(n)]
+                dual = [Fraction(rng.randint(1, 5), rng.randint(1, 3)) for _ in range(n)]
+                if rng.random() < 0.15:
+                    prim = [rq(rng) for _ in range(n)]
+                nf = n if rng.random() < 0.75 else rng.choice([0, 0, n + 1])
+                freq = [Fraction(1, rng.choice([1, 1, 2, 3, 4])) for _ in range(nf)]
+                nx = n if rng.random() < 0.95 else n + 1
+                x = [rq(rng) for _ in range(nx)]
+                cases.append(squeeze("gmean %s %d %d %s %s %d %s D %d %s" % (
+                    rng.choice(MODES), comm, n, " ".join(map(fq, prim)), " ".join(map(fq, dual)), nf,
+                    " ".join(map(fq, freq)), nx, " ".join(map(fq, x)))))
+            continue
         if k < 0.68:
             sig = rng.choice(VEC_SIGS)
             o1 = dict(opts)
@@ -362,6 +400,93 @@ def gen_cases(rng, count, big=False):
                 vm = [rq(rng) for _ in val]
                 line += " %d %s" % (len(vm), " ".join(map(fq, vm)))
             cases.append(squeeze(line))
+    return cases
+
+
+def gen_dispatch_filter(rng, t, n):
+    """like gen_filter, but every leaf is inside the domain and as 'mode-sensitive' as its type allows"""
+    kind = t[0]
+    if kind in ("T", "P"):
+        members = t[1] if kind == "T" else [t[2]] * t[1]
+        subs = [gen_dispatch_filter(rng, m, rng.choice([2, 3, 4, 5])) for m in members]
+        return (kind, [s[0] for s in subs]), (kind, [s[1] for s in subs])
+    if kind == "C":
+        subs = [gen_dispatch_filter(rng, m, n) for m in t[1]]
+        return ("C", [s[0] for s in subs]), subs[0][1]
+    if kind == "Q":
+        subs = [gen_dispatch_filter(rng, t[1], n) for _ in range(3)]
+        return ("Q", [s[0] for s in subs]), subs[0][1]
+    if kind in ("U", "UB"):
+        b = 1 if kind == "U" else t[1]
+        idx = [i for i in range(n) if rng.random() < 0.5] or [rng.randrange(n)]
+        if len(idx) == n and n > 1:
+            idx.pop()
+        rng.shuffle(idx)
+        if kind == "U":
+            return ("U", rng.choice([0, 1]), n, [(i, rq(rng, nz=True)) for i in idx]), ("D", n)
+        return ("UB", b, 0, 0, n, [(i, [rq(rng, nz=True) for _ in range(b)]) for i in idx]), ("B", b, n)
+    if kind in ("M", "MB"):
+        b = 1 if kind == "M" else t[1]
+        while True:
+            prim = [Fraction(rng.randint(1, 6), rng.randint(1, 3)) for _ in range(n * b)]
+            dual = [Fraction(rng.randint(1, 6), rng.randint(1, 3)) for _ in range(n * b)]
+            # non-parallel in every component
+            if all(prim[j] * dual[b + j] != prim[b + j] * dual[j] for j in range(b)):
+                break
+        sol = [rq(rng, nz=True) for _ in range(b)]
+        vol = [dot(prim[j::b], dual[j::b]) for j in range(b)]
+        if kind == "M":
+            return ("M", 0, n, prim, dual, sol[0], vol[0]), ("D", n)
+        return ("MB", b, 0, n, prim, dual, sol, vol), ("B", b, n)
+    raise ValueError(t)
+
+
+def spec_swapped(mode, f, v, pos, m2):
+    """the result if top-level member `pos` were called with member function m2 instead of `mode`"""
+    k = f[0]
+    if k in ("C", "Q"):
+        for i, s in enumerate(f[1]):
+            v = spec(m2 if i == pos else mode, s, v)
+        return v
+    return (v[0], [spec(m2 if i == pos else mode, s, c) for i, (s, c) in enumerate(zip(f[1], v[1]))])
+
+
+MODES = ["rhs", "sol", "def", "cor"]
+
+
+def same_member_function(f, a, b):
+    """the member functions a and b of filter f are the same function by definition (filter_sol calls filter_rhs ...)"""
+    k = f[0]
+    if k in ("U", "UB"):
+        return {a, b} <= {"rhs", "sol"} or {a, b} <= {"def", "cor"}
+    if k in ("S", "N", "NB"):
+        return True
+    if k in ("M", "MB"):
+        return {a, b} == {"rhs", "def"}
+    return all(same_member_function(s, a, b) for s in f[1])
+
+
+def gen_dispatch_cases(rng, reps):
+    """deterministic part of the combinator tie: for every composition of DISPATCH_SIGS and every member function,
+    `reps` cases in which calling ANY other member function on ANY single top-level member changes the result"""
+    cases = []
+    for sig in DISPATCH_SIGS:
+        t = parse_sig(sig)
+        for mode in MODES:
+            made = 0
+            while made < reps:
+                f, vs = gen_dispatch_filter(rng, t, rng.choice([2, 3, 4, 5]))
+                v = gen_vector(rng, vs)
+                try:
+                    want = spec(mode, f, v)
+                    ok = all(spec_swapped(mode, f, v, pos, m2) != want
+                             for pos in range(len(f[1])) for m2 in MODES
+                             if m2 != mode and not same_member_function(f[1][pos], mode, m2))
+                except OutOfDomain:
+                    ok = False
+                if ok:
+                    cases.append(squeeze("vec %s %s %s %s" % (mode, sig, fmt_filter(f), fmt_vector(v))))
+                    made += 1
     return cases
 
 
@@ -819,7 +944,7 @@ def idempotent_expected(f):
 
 def parse_vec_case(case):
     c = Tk(case)
-    assert c.tok() == "vec"
+    assert c.tok() in ("vec", "gvec")
     mode, sig = c.tok(), c.tok()
     f = read_filter(c)
     v = read_vector(c)
@@ -963,10 +1088,78 @@ def oracle_mat(case, out):
     return None
 
 
+def parse_gmean(case):
+    c = Tk(case)
+    assert c.tok() == "gmean"
+    mode, comm, n = c.tok(), c.nat(), c.nat()
+    prim, dual = c.qs(n), c.qs(n)
+    freq = c.qlist()
+    assert c.tok() == "D"
+    x = c.qlist()
+    return mode, comm, prim, dual, freq, x
+
+
+def gmean_spec(mode, comm, prim, dual, freq, x):
+    """Global::MeanFilter: the (frequency-weighted = global) dual resp. primal mean is removed"""
+    n = len(prim)
+    use = bool(comm) and len(freq) > 0
+    if use and len(freq) != n:
+        raise OutOfDomain("size mismatch")
+    w = freq if use else [Fraction(1)] * n
+    vol = sum((a * b * c for a, b, c in zip(w, prim, dual)), Fraction(0))
+    if n == 0:
+        return list(x), w, vol
+    if len(x) != n:
+        raise OutOfDomain("size mismatch")
+    if vol == 0:
+        raise OutOfDomain("volume zero")
+    wgt, dirn = (prim, dual) if mode in ("rhs", "def") else (dual, prim)
+    t = -sum((a * b * c for a, b, c in zip(w, x, wgt)), Fraction(0)) / vol
+    return [a + t * d for a, d in zip(x, dirn)], w, vol
+
+
+def oracle_gmean(case, out):
+    mode, comm, prim, dual, freq, x = parse_gmean(case)
+    try:
+        want, w, vol = gmean_spec(mode, comm, prim, dual, freq, x)
+    except OutOfDomain:
+        if out.split(":")[0] in ("SIGNAL", "TIMEOUT", "SANITIZER"):
+            return "filter outside its domain ended with " + out
+        return None
+    if is_abnormal(out):
+        return "global mean filter on a valid input ended with " + out
+    o = Tk(out)
+    if o.tok() != "R":
+        return "unparsable output"
+    y = o.qlist()
+    if o.tok() != "R2":
+        return "unparsable output"
+    y2 = o.qlist()
+    if len(y) != len(x):
+        return "vector length changed"
+    if prim:
+        wgt, dirn = (prim, dual) if mode in ("rhs", "def") else (dual, prim)
+        if sum((a * b * c for a, b, c in zip(w, y, wgt)), Fraction(0)) != 0:
+            return "global weighted mean not zero after the filter"
+        d = [a - b for a, b in zip(y, x)]
+        for p in range(len(d)):
+            for q in range(p + 1, len(d)):
+                if d[p] * dirn[q] != d[q] * dirn[p]:
+                    return "the change is not a multiple of the weighting vector"
+    elif y != x:
+        return "empty global mean filter changed the vector"
+    if y2 != y:
+        return "second application changed the vector"
+    return None
+
+
 def oracle(case, out):
     try:
-        if case.startswith("vec "):
+        if case.startswith("vec ") or case.startswith("gvec "):
+            # Global::Filter<F, Mirror> has to do exactly what F does on the local vector
             return oracle_vec(case, out)
+        if case.startswith("gmean "):
+            return oracle_gmean(case, out)
         return oracle_mat(case, out)
     except (IndexError, ValueError, AssertionError, StopIteration, TypeError) as e:
         return "unparsable implementation output (%s): %s" % (e, out[:200])
@@ -978,7 +1171,7 @@ F1_WHY = "MeanFilterBlocked accepted a volume with a vanishing component and div
 def is_f1_class(case):
     """input class of finding F1: a blocked mean filter with weights whose volume has a zero component but a
     squared norm > eps (and nothing else in the case that divides by zero)"""
-    if not case.startswith("vec "):
+    if not (case.startswith("vec ") or case.startswith("gvec ")):
         return False
     try:
         mode, sig, f, v = parse_vec_case(case)
@@ -1028,6 +1221,8 @@ def leaf_class(m):
         keys = ["%s-idx:%s" % (k, cls)]
         if len(s) != len(es):
             keys.append("%s-duplicate-index" % k)
+        if k == "S" and len({dot(nu, nu) for _, nu in es if NAN not in nu}) >= 2:
+            keys.append("S-normals-of-different-magnitude")
         if k == "UB" and any(NAN in v for _, v in es):
             keys.append("UB-nan:ign%d" % m[3])
         if k in ("U", "UB"):
@@ -1043,7 +1238,14 @@ def describe(case):
     t = case.split()
     keys = ["op:%s-%s" % (t[0], t[1])]
     try:
-        if t[0] == "vec":
+        if t[0] == "gmean":
+            mode, comm, prim, dual, freq, x = parse_gmean(case)
+            keys.append("gmean:%s" % ("freq+comm" if (comm and freq) else ("no-comm" if not comm else "no-freq")))
+            try:
+                gmean_spec(mode, comm, prim, dual, freq, x)
+            except OutOfDomain as e:
+                keys.append("outside-domain:" + str(e))
+        elif t[0] in ("vec", "gvec"):
             mode, sig, f, v = parse_vec_case(case)
             keys.append("sig:" + sig)
             for m in filter_leaves(f):
@@ -1090,7 +1292,11 @@ def nontrivial(case):
     """some unit/slip member constrains a proper non-empty subset (0 < |idx| < n), or a mean filter acts on >= 2 dofs,
     and the input is inside the domain of the property"""
     try:
-        if case.startswith("vec "):
+        if case.startswith("gmean "):
+            mode, comm, prim, dual, freq, x = parse_gmean(case)
+            gmean_spec(mode, comm, prim, dual, freq, x)
+            return len(x) >= 2
+        if case.startswith("vec ") or case.startswith("gvec "):
             mode, sig, f, v = parse_vec_case(case)
             check_filter_domain(f)
             spec(mode, f, v)
@@ -1145,7 +1351,8 @@ def main(argv):
         if os.path.isdir(cdir):
             for fn in sorted(os.listdir(cdir)):
                 corpus += [l.strip() for l in open(os.path.join(cdir, fn)) if l.strip() and not l.startswith("#")]
-        cases = corpus + (gen_cases(rng, 20000) if args.tier == "quick" else gen_cases(rng, 150000, big=True))
+        cases = corpus + gen_dispatch_cases(rng, 12 if args.tier == "quick" else 60) + \
+            (gen_cases(rng, 20000) if args.tier == "quick" else gen_cases(rng, 150000, big=True))
     st = vlib.Stream("filters", cases, [binary], vlib.driver_cmd(PROP), oracle=oracle, nontrivial=nontrivial,
                      describe=describe, signature=signature, canon=canon)
     st_kf = vlib.Stream("known-findings", [c for c in cases if is_f1_class(c)], [binary], None, oracle=oracle_f1,
